@@ -2,6 +2,7 @@ package types
 
 import (
 	"fmt"
+	"sort"
 )
 
 type FunKind int
@@ -15,10 +16,44 @@ const (
 func (f *FunTy) OverLoaded() (key string, fk FunKind) {
 	if slotFree(f.Ty()) {
 		// 单态函数直接根据去除返回值的签名来查找
-		return fmt.Sprintf("λ %s %s", f.Name, Tuple(f.Param)), MonoFun
+		return fmt.Sprintf("λ %s %s", f.Name, sortFields(Tuple(f.Param))), MonoFun
 	} else {
 		// for 支持 universal quantification
 		// 多态函数根据名称+参数个数来查找
 		return fmt.Sprintf("∀.λ %s %d", f.Name, len(f.Param)), PolyFun
+	}
+}
+
+// sortFields 对象类型相等不考虑字段顺序, 单态函数的查找 key 是渲染后的参数类型,
+// 所以渲染之前需要把对象字段按名称排序, 否则 f({a:num,b:str}) 找不到 f({b:"x",a:1})
+func sortFields(ty *Type) *Type {
+	switch ty.Kind {
+	case KList:
+		return List(sortFields(ty.List().El))
+	case KMap:
+		return Map(sortFields(ty.Map().Key), sortFields(ty.Map().Val))
+	case KMaybe:
+		return Maybe(sortFields(ty.Maybe().Elem))
+	case kTuple:
+		vs := make([]*Type, len(ty.Tuple().Val))
+		for i, v := range ty.Tuple().Val {
+			vs[i] = sortFields(v)
+		}
+		return Tuple(vs)
+	case KObj:
+		fs := make([]Field, len(ty.Obj().Fields))
+		for i, f := range ty.Obj().Fields {
+			fs[i] = Field{f.Name, sortFields(f.Val)}
+		}
+		sort.SliceStable(fs, func(i, j int) bool { return fs[i].Name < fs[j].Name })
+		return Obj(fs)
+	case KFun:
+		ps := make([]*Type, len(ty.Fun().Param))
+		for i, p := range ty.Fun().Param {
+			ps[i] = sortFields(p)
+		}
+		return Fun(ty.Fun().Name, ps, sortFields(ty.Fun().Return))
+	default:
+		return ty
 	}
 }
